@@ -75,12 +75,15 @@ Print Assumptions C05_rejects_dup_lists.
 (* ---- operations: well-formedness is an invariant of every program over the covered operations ---- *)
 (* [covered a o]: transpose / swapaxes / rollaxis / repeat / newaxis (non-empty name) / squeeze / reductions /
    cumulative / diff / argmin,argmax / dropna / fillna / setna / mask assignment / take_axis / compress_axis /
-   sort_axis / interp_axis / interp_like / in-place relabelling / a.dims = / queries, and in-place renaming of
-   one axis PROVIDED the new name is not the name of another dimension (open finding axis-name-sibling) *)
-Theorem C05_step_wf : forall ins o a v, WF a -> covered a o = true -> apply_op ins o a = Ok v -> WFv v.
+   sort_axis / interp_axis / interp_like / in-place relabelling / a.dims = / queries; align / binary operations
+   in both operand orders / broadcast (to axes with non-empty names, to another array) / broadcast_arrays, whose
+   other operands [ins] are well-formed too; and in-place renaming of one axis PROVIDED the new name is not the
+   name of another dimension (open finding axis-name-sibling).  Not covered: flatten / unflatten / reshape with
+   grouped names, stack, concatenate (their results are compared with the implementation case by case only). *)
+Theorem C05_step_wf : forall ins o a v, Forall WF ins -> WF a -> covered a o = true -> apply_op ins o a = Ok v -> WFv v.
 Proof. exact apply_op_wf. Qed.
 Print Assumptions C05_step_wf.
-Theorem C05_program_wf : forall ins ops a v, WF a -> prog_covered ins ops a = true -> run_ops ins ops a = Ok v -> WFv v.
+Theorem C05_program_wf : forall ins ops, Forall WF ins -> forall a v, WF a -> prog_covered ins ops a = true -> run_ops ins ops a = Ok v -> WFv v.
 Proof. exact run_ops_wf. Qed.
 Print Assumptions C05_program_wf.
 (* the side condition on renaming is necessary: the faithful model (like the code) accepts a sibling's name *)
